@@ -124,6 +124,7 @@ func propC28PeerSyncStateMachine(t testing.TB) {
 		lastRequested := map[string]time.Duration{}
 		var oplog []string
 		classes := map[string]bool{}
+		susp := map[string]bool{ids[3]: true} // quarantined peers (one from the start, more at run time)
 
 		advance := func(d time.Duration) {
 			clock += d
@@ -175,10 +176,10 @@ func propC28PeerSyncStateMachine(t testing.TB) {
 		}
 		steps := rapid.IntRange(1, 18).Draw(t, "steps")
 		for i := 0; i < steps; i++ {
-			op := rapid.SampledFrom([]string{"poll", "poll", "poll", "request_poll", "connect", "connect", "disconnect", "advance", "advance", "cleanup", "cleanup", "pollAll", "pollAll", "forcePollAll", "reopen", "junk", "transport"}).Draw(t, "op")
+			op := rapid.SampledFrom([]string{"poll", "poll", "poll", "request_poll", "connect", "connect", "disconnect", "advance", "advance", "cleanup", "cleanup", "pollAll", "pollAll", "forcePollAll", "reopen", "junk", "transport", "quarantine"}).Draw(t, "op")
 			id := rapid.SampledFrom(ids).Draw(t, "peer")
 			pid, _ := peersync.NewPeerID(id)
-			suspicious := id == ids[3]
+			suspicious := susp[id]
 			switch op {
 			case "poll", "request_poll":
 				snap := &peersync.PeerCapabilitySnapshot{
@@ -267,6 +268,18 @@ func propC28PeerSyncStateMachine(t testing.TB) {
 					}
 					mp.lastSeen, mp.seen = clock, true
 				}
+			case "quarantine":
+				// a peer - possibly one whose capability is already stored - is put on the suspicious list
+				if !susp[id] {
+					if err := pol.AddToSuspiciousPeerList(id); err != nil {
+						t.Fatalf("harness: AddToSuspiciousPeerList: %v", err)
+					}
+					susp[id] = true
+					if model[id] != nil {
+						classes["stored-peer-quarantined"] = true
+					}
+					oplog = append(oplog, "quarantine("+id[:6]+")")
+				}
 			case "transport":
 				// the transport starts / stops failing (unreachable peers): an attempt that fails still is a request
 				ln.mu.Lock()
@@ -331,6 +344,9 @@ func propC28PeerSyncStateMachine(t testing.TB) {
 							fp, _ := peersync.NewPeerID(from)
 							payload, _ := json.Marshal(fresh)
 							ps.VerifProcessMessage(ctx, peersync.CustomMessage{From: fp, Type: messages.MESSAGETYPE_POLL, Payload: payload})
+							if susp[from] {
+								return // a quarantined peer's poll is ignored
+							}
 							mp.snap, mp.lastSeen, mp.seen = fresh, clock, true
 							classes["poll-arrived-during-round"] = true
 							oplog = append(oplog, fmt.Sprintf("poll-arrives-during-round(%s,rate=%d)", from[:6], fresh.BTCSwapInPremiumRatePPM))
@@ -345,7 +361,7 @@ func propC28PeerSyncStateMachine(t testing.TB) {
 				ln.onSend = nil
 				reqTo := map[string]int{}
 				for _, s := range ln.sent[sentBefore:] {
-					if s.to == ids[3] {
+					if susp[s.to] {
 						t.Fatalf("VKEY[C26/peersync-polls-suspicious] peer-sync sent %d to a suspicious peer", s.typ)
 					}
 					if model[s.to] == nil && s.typ == messages.MESSAGETYPE_REQUEST_POLL {
@@ -357,7 +373,7 @@ func propC28PeerSyncStateMachine(t testing.TB) {
 				}
 				// requests to unknown connected peers: at most once per request interval unless forced
 				for _, cid := range ids[:3] {
-					unknownConnected := model[cid] == nil && ln.connected[cid]
+					unknownConnected := model[cid] == nil && ln.connected[cid] && !susp[cid]
 					last, asked := lastRequested[cid]
 					allowed := unknownConnected && (force || !asked || clock-last >= requestInterval)
 					switch {
